@@ -11,6 +11,7 @@ RULE = ("Programs with 1-4 splitter fields (mixed case / underscore names in eve
         "Oracle: independent re-implementation of the published scheme + exact partition. Non-trivial = >=2 "
         "splitters or a salt, and >=16 groups; distinct by (program text, inputs).")
 RULE += (' Since rounds 6-7: every neighbour pair of three fixed programs through one live evaluator, every catalogue salt (incl. typographic look-alikes) walked deterministically, refused deploys in between.')
+RULE += (' Since rounds 14-15: keys whose length sits on block sizes (55-57, 2^k+-1, multiples of 4096 up to 2^20); str / int subclasses whose str() differs; fragments of the generated code as salts.')
 ASSUMPTIONS = [
     "'alphabetical order of field name' is code-point order (what the pinned implementation's sorted() does)",
     "lone surrogates are excluded (no UTF-8 encoding exists; the scheme is undefined on them)",
